@@ -107,6 +107,11 @@ def jobs(tier):
                         "faults": 1 if q else 2,
                     }
                 )
+    # the client may answer before the request call returns (an already-fired Deferred; the consumer's own comments
+    # anticipate it): the response handlers then run inside _do_fetch
+    for start in ("num", "earliest", "committed"):
+        for proc in ("sync", "async"):
+            out.append({"start": start, "proc": proc, "acn": 1 if start == "committed" else None, "n": 3, "K": 5 if q else 6, "faults": 1, "sync": 1})
     out.append({"kind": "bytes", "batches": 2 if q else 3})
     return out
 
@@ -237,6 +242,7 @@ def scenario(job):
             "faults": job["faults"],
             "small": 1,
             "failed": False,
+            "sync_left": job.get("sync", 0),
         }
 
         def processor(consumer, block):
@@ -284,6 +290,10 @@ def scenario(job):
                 client.resolve(p, [OffsetCommitResponse(TOPIC, PART, 0)])
             else:
                 ctx.log(kind)
+            if job.get("sync") and kind in ("fetch", "offset", "offset_fetch") and st["sync_left"] > 0 and ctx.choose("sync_answer", 2) == 1:
+                st["sync_left"] -= 1
+                ctx.log("answered-synchronously", kind)
+                reply(p)
 
         client.on_request = on_request
 
@@ -298,10 +308,8 @@ def scenario(job):
             st["next"] = st["hi"] = idx(start)
         else:
             start = {"earliest": OFFSET_EARLIEST, "latest": OFFSET_LATEST, "committed": OFFSET_COMMITTED}[job["start"]]
-        ctx.sig("start=%s proc=%s acn=%s" % (job["start"], job["proc"], job["acn"]))
-        start_d = consumer.start(start)
+        ctx.sig("start=%s proc=%s acn=%s%s" % (job["start"], job["proc"], job["acn"], " sync" if job.get("sync") else ""))
         start_res = []
-        start_d.addBoth(start_res.append)
 
         def resolved(r):
             st["exp_f"] = r
@@ -372,6 +380,8 @@ def scenario(job):
                     st["exp_f"] = offs[last] + 1
                     st["hi"] = last + 1
                 client.resolve(p, [FetchResponse(TOPIC, PART, 0, 0, iter(block))])
+
+        consumer.start(start).addBoth(start_res.append)
 
         ev = 0
         while ev < K and not start_res:
